@@ -319,11 +319,11 @@ def conc_program(P, argsets, mode, seed):
         d, flat = pr.build(P, lambda k: {"resource": res, "priority": rng.choice([0, 1, 3]), "is_sequential": rng.random() < 0.25}, is_async=(mode == "gather"), mc=rng.randint(2, 4))
     except BaseException as e:  # noqa: BLE001
         pr.PRE_HOOK = None
-        if "already occupied" in str(e):
-            return []          # the known C20 finding (same nested DAG twice): nothing to run concurrently
+        if "already occupied" in str(e) or "unexpected keyword argument 'id_'" in str(e):
+            return []          # the known C20 findings (same nested DAG twice, literal in a nested return): nothing to run concurrently
         return [{"harness_error": "build: " + repr(e)[:120]}]
     # the property is about calls made after the setup nodes have run: run them first, outside the observation
-    setup_paths = [[j] for j, st in enumerate(P["sites"], 1) if st.get("setup")]
+    setup_paths = pr.setup_paths(P)
     # threads: the property speaks of calls made after the setup nodes have run. Gathered awaits: also without that -
     # every await must still get its own result (a setup node may then be computed by more than one of them)
     presetup = bool(setup_paths) and (mode == "threads" or rng.random() < 0.5)
@@ -393,7 +393,7 @@ def conc_program(P, argsets, mode, seed):
         kind, v = outs[t] if outs[t] else ("err", RuntimeError("call did not finish"))
         row = {"given": [pg.encode(x) for x in argsets[t]], "raised": kind == "err", "errclass": pr.errclass(v) if kind == "err" else "",
                "val": pg.encode(v) if kind == "ok" else pg.verr(), "exec": [], "dup": False, "async": mode == "gather", "built": True,
-               "twice": False, "conc": 1 if mode == "threads" else 2, "loop": 0, "pre": setup_paths if presetup else [], "ref": pr.plain_call(P, argsets[t])}
+               "twice": False, "constret": False, "conc": 1 if mode == "threads" else 2, "loop": 0, "pre": setup_paths if presetup else [], "ref": pr.plain_call(P, argsets[t])}
         if row["ref"].get("exec") is not None and presetup:
             row["ref"]["exec"] = [p for p in row["ref"]["exec"] if p not in setup_paths]
         rows.append(row)
@@ -471,7 +471,7 @@ def run_conc(tier, seed):
                 obs.append(row)
     stripped = [pg.strip(P) for P in progs]
     path = os.path.join(common.CACHE, f"e5-conc-{os.getpid()}.json")
-    keys = ("given", "raised", "errclass", "val", "exec", "dup", "async", "built", "twice", "conc", "loop", "pre")
+    keys = ("given", "raised", "errclass", "val", "exec", "dup", "async", "built", "twice", "constret", "conc", "loop", "pre")
     with open(path, "w") as f:
         json.dump({"progs": stripped, "obs": [{"p": r["p"], **{k: r[k] for k in keys}} for r in obs]}, f)
     try:
